@@ -310,15 +310,79 @@ def load_progs(config="default", root=None):
     return programs_from_facts(fx)
 
 
+def import_lib_helpers(binf, libf):
+    """the command-line front end may be spread over NEW public functions of the library (a `Config::builder()` with chainable setters used
+    by main): those are no reviewed functions, so — like private helpers of the binary — they are spliced into `main`'s normal form. Their
+    bodies are taken from the library's facts, matched by definition path (independent of the re-export main names them through), and
+    added to the binary's program under the name main calls them by; reviewed library functions are never imported."""
+    import copy
+    import inline
+    lib_by_dp = {b["dp"]: b for b in libf["bodies"] if b.get("dp")}
+    lib_by_name = {b["name"]: b for b in libf["bodies"]}
+    if not lib_by_dp:
+        return binf
+    known = inline.known_functions()
+    have = {b["name"] for b in binf["bodies"]}
+    added, work = [], []
+
+    def is_reviewed(lb):
+        return lb["name"] in known or inline._key(lb["name"]) in known or (lb.get("kind") == "Fn" and ("#" + _tail(lb["name"], 1)) in known)
+
+    def scan(body, sibling):
+        for blk in body.get("blocks", []):
+            t = blk.get("term") or {}
+            if t.get("k") != "call" or not isinstance(t.get("callee"), dict):
+                continue
+            c = t["callee"]
+            if sibling and c.get("rdp") in lib_by_dp:
+                work.append((lib_by_dp[c["rdp"]], c.get("rpath") or c.get("path")))
+            elif not sibling:
+                for nm in (c.get("rpath"), c.get("path")):
+                    if nm in lib_by_name and (c.get("rlocal") or c.get("local")):
+                        work.append((lib_by_name[nm], nm))
+                        break
+            for at in t.get("arg_tys") or []:
+                cl = at.get("closure") if isinstance(at, dict) else None
+                if cl and cl in lib_by_name and not sibling:
+                    work.append((lib_by_name[cl], cl))
+
+    for b in binf["bodies"]:
+        scan(b, True)
+    while work:
+        lb, nm = work.pop()
+        if nm in have or (lb.get("kind") != "Closure" and is_reviewed(lb)):
+            continue
+        nb = copy.deepcopy(lb)
+        nb["name"] = nm
+        nb["imported_from"] = lb["name"]
+        have.add(nm)
+        added.append(nb)
+        scan(lb, False)
+        # closures defined inside the imported function
+        for cb in libf["bodies"]:
+            if cb.get("kind") == "Closure" and cb.get("root") == lb["name"] and cb["name"] not in have:
+                work.append((cb, cb["name"]))
+    if not added:
+        return binf
+    out = dict(binf)
+    out["bodies"] = list(binf["bodies"]) + added
+    out["imported"] = [b["name"] for b in added]
+    return out
+
+
 def programs_from_facts(fx):
     """facts of one configuration -> Programs in normal form (renames undone, helpers inlined, combinators desugared)"""
     import inline
     out = {}
     import rename
-    for k, v in fx.items():
+    canon = {}
+    for k, v in sorted(fx.items(), key=lambda kv: (kv[0] != "lib", kv[0])):       # the library first: the binary may borrow from it
         rep = None
         if k in ("lib", "bin"):
             v, rep = rename.canonicalize(v, k)      # pure renames of private functions / types / fields are undone first
+            canon[k] = v
+        if k == "bin" and "lib" in canon:
+            v = import_lib_helpers(v, canon["lib"])
         p = C.Program(v, k)
         if k in ("lib", "bin"):
             p, inlined = inline.inline_program(p)
